@@ -240,4 +240,522 @@ theorem quote_unique (s t : Str) (r1 r2 : Bytes) (hs : ∀ c ∈ s, c < 0x110000
   simp only [quote, List.cons_append, List.append_assoc, List.cons.injEq, true_and, List.nil_append] at h
   exact escStr_unique s t r1 r2 hs ht h
 
+/-! ### Direct rendering: the bytes of a value whose strings and member order are taken as they are -/
+
+mutual
+def render : JVal → Option Bytes
+  | .null => some [0x6E, 0x75, 0x6C, 0x6C]
+  | .bool true => some [0x74, 0x72, 0x75, 0x65]
+  | .bool false => some [0x66, 0x61, 0x6C, 0x73, 0x65]
+  | .int i => some (intBytes i)
+  | .float => none
+  | .str s => some (quote s)
+  | .arr xs => (renderL true xs).map fun b => 0x5B :: b ++ [0x5D]
+  | .obj ms => (renderM true ms).map fun b => 0x7B :: b ++ [0x7D]
+def renderL (first : Bool) : JList → Option Bytes
+  | .nil => some []
+  | .cons v rest =>
+    match render v, renderL false rest with
+    | some b, some bs => some ((if first then [] else [0x2C]) ++ b ++ bs)
+    | _, _ => none
+def renderM (first : Bool) : JMembers → Option Bytes
+  | .nil => some []
+  | .cons k v rest =>
+    match render v, renderM false rest with
+    | some b, some bs => some ((if first then [] else [0x2C]) ++ quote k ++ [0x3A] ++ b ++ bs)
+    | _, _ => none
+end
+
+/-- what may follow a value inside a document: nothing, a comma, or a closing bracket -/
+def Term (r : Bytes) : Prop := ∀ x, r.head? = some x → x = 0x2C ∨ x = 0x5D ∨ x = 0x7D
+
+theorem Term.noDigit {r : Bytes} (h : Term r) : NoDigitHead r := by
+  intro x hx
+  rcases h x hx with e | e | e <;> (subst e; decide)
+
+theorem term_nil : Term [] := by intro x hx; simp at hx
+theorem term_cons_comma (r : Bytes) : Term (0x2C :: r) := by intro x hx; simp at hx; exact Or.inl hx.symm
+theorem term_cons_rbracket (r : Bytes) : Term (0x5D :: r) := by intro x hx; simp at hx; exact Or.inr (Or.inl hx.symm)
+theorem term_cons_rbrace (r : Bytes) : Term (0x7D :: r) := by intro x hx; simp at hx; exact Or.inr (Or.inr hx.symm)
+
+/-- the constructor of a value -/
+def tagOf : JVal → Nat
+  | .null => 0 | .bool _ => 1 | .int _ => 2 | .float => 7 | .str _ => 3 | .arr _ => 4 | .obj _ => 5
+
+/-- the constructor announced by the first byte -/
+def headTag (h : Nat) : Nat :=
+  if h = 0x6E then 0 else if h = 0x74 ∨ h = 0x66 then 1 else if h = 0x2D ∨ isDigitB h = true then 2
+  else if h = 0x22 then 3 else if h = 0x5B then 4 else if h = 0x7B then 5 else 9
+
+theorem intBytes_head (i : Int) : ∃ h t, intBytes i = h :: t ∧ (h = 0x2D ∨ isDigitB h = true) := by
+  unfold intBytes
+  split
+  · exact ⟨0x2D, _, rfl, Or.inl rfl⟩
+  · cases hn : natBytes i.natAbs with
+    | nil => exact absurd hn (natBytes_ne_nil _)
+    | cons d rest => exact ⟨d, rest, rfl, Or.inr (natBytes_digits _ d (by rw [hn]; exact List.mem_cons_self ..))⟩
+
+theorem render_head (v : JVal) (b : Bytes) (h : render v = some b) : ∃ x t, b = x :: t ∧ headTag x = tagOf v := by
+  cases v with
+  | null => simp only [render, Option.some.injEq] at h; subst h; exact ⟨_, _, rfl, by decide⟩
+  | bool bb =>
+    cases bb <;> (simp only [render, Option.some.injEq] at h; subst h; exact ⟨_, _, rfl, by decide⟩)
+  | int i =>
+    simp only [render, Option.some.injEq] at h; subst h
+    obtain ⟨x, t, e, hx⟩ := intBytes_head i
+    refine ⟨x, t, e, ?_⟩
+    rcases hx with hx | hx
+    · subst hx; simp only [tagOf]; decide
+    · simp only [headTag, tagOf]
+      have h1 : x ≠ 0x6E := by intro e; subst e; revert hx; decide
+      have h2 : ¬ (x = 0x74 ∨ x = 0x66) := by
+        intro e; rcases e with e | e <;> (subst e; revert hx; decide)
+      simp [h1, h2, hx]
+  | float => simp [render] at h
+  | str s => simp only [render, Option.some.injEq] at h; subst h; exact ⟨_, _, rfl, by simp only [tagOf]; decide⟩
+  | arr xs =>
+    simp only [render, Option.map_eq_some_iff] at h
+    obtain ⟨bs, _, e⟩ := h
+    subst e; exact ⟨_, _, rfl, by simp only [tagOf]; decide⟩
+  | obj ms =>
+    simp only [render, Option.map_eq_some_iff] at h
+    obtain ⟨bs, _, e⟩ := h
+    subst e; exact ⟨_, _, rfl, by simp only [tagOf]; decide⟩
+
+/-- after the first element, what `renderL false` / `renderM false` produce is empty or starts with a comma -/
+theorem renderL_false_term (xs : JList) (bs r : Bytes) (h : renderL false xs = some bs) : Term (bs ++ 0x5D :: r) := by
+  cases xs with
+  | nil => simp only [renderL, Option.some.injEq] at h; subst h; exact term_cons_rbracket r
+  | cons v rest =>
+    simp only [renderL] at h
+    split at h
+    · simp only [Bool.false_eq_true, ↓reduceIte, Option.some.injEq] at h; subst h
+      simp only [List.cons_append, List.nil_append, List.append_assoc]
+      exact term_cons_comma _
+    · cases h
+
+theorem renderM_false_term (ms : JMembers) (bs r : Bytes) (h : renderM false ms = some bs) : Term (bs ++ 0x7D :: r) := by
+  cases ms with
+  | nil => simp only [renderM, Option.some.injEq] at h; subst h; exact term_cons_rbrace r
+  | cons k v rest =>
+    simp only [renderM] at h
+    split at h
+    · simp only [Bool.false_eq_true, ↓reduceIte, Option.some.injEq] at h; subst h
+      simp only [List.cons_append, List.nil_append, List.append_assoc]
+      exact term_cons_comma _
+    · cases h
+
+theorem headTag_rbracket : headTag 0x5D = 9 := by decide
+theorem headTag_rbrace : headTag 0x7D = 9 := by decide
+theorem headTag_comma : headTag 0x2C = 9 := by decide
+
+theorem tagOf_lt (v : JVal) (b : Bytes) (h : render v = some b) : tagOf v < 6 := by
+  cases v <;> simp [tagOf, render] at h ⊢
+
+theorem tag_eq_of_append (v w : JVal) (b1 b2 r1 r2 : Bytes) (h1 : render v = some b1) (h2 : render w = some b2)
+    (h : b1 ++ r1 = b2 ++ r2) : tagOf v = tagOf w := by
+  obtain ⟨x1, t1, e1, g1⟩ := render_head _ _ h1
+  obtain ⟨x2, t2, e2, g2⟩ := render_head _ _ h2
+  have hx : x1 = x2 := by rw [e1, e2] at h; simp only [List.cons_append, List.cons.injEq] at h; exact h.1
+  rw [← g1, ← g2, hx]
+
+mutual
+/-- **the rendering can be read back**: a rendered value followed by a terminator determines the value
+and where it ends -/
+theorem render_inj : (v w : JVal) → (b1 b2 r1 r2 : Bytes) → validJ v = true → validJ w = true →
+    render v = some b1 → render w = some b2 → Term r1 → Term r2 → b1 ++ r1 = b2 ++ r2 → v = w ∧ r1 = r2
+  | .null, w, b1, b2, r1, r2, _, _, h1, h2, _, _, h => by
+    have htag := tag_eq_of_append _ _ _ _ _ _ h1 h2 h
+    cases w with
+    | null =>
+      simp only [render, Option.some.injEq] at h1 h2
+      subst h1; subst h2
+      exact ⟨rfl, List.append_cancel_left h⟩
+    | bool b => simp [tagOf] at htag
+    | int j => simp [tagOf] at htag
+    | float => simp [tagOf] at htag
+    | str t => simp [tagOf] at htag
+    | arr ys => simp [tagOf] at htag
+    | obj ns => simp [tagOf] at htag
+  | .bool a, w, b1, b2, r1, r2, _, _, h1, h2, _, _, h => by
+    have htag := tag_eq_of_append _ _ _ _ _ _ h1 h2 h
+    cases w with
+    | bool b =>
+      cases a <;> cases b <;> simp only [render, Option.some.injEq] at h1 h2 <;> subst h1 <;> subst h2
+      · exact ⟨rfl, List.append_cancel_left h⟩
+      · simp at h
+      · simp at h
+      · exact ⟨rfl, List.append_cancel_left h⟩
+    | null => simp [tagOf] at htag
+    | int j => simp [tagOf] at htag
+    | float => simp [tagOf] at htag
+    | str t => simp [tagOf] at htag
+    | arr ys => simp [tagOf] at htag
+    | obj ns => simp [tagOf] at htag
+  | .int i, w, b1, b2, r1, r2, _, _, h1, h2, t1', t2', h => by
+    have htag := tag_eq_of_append _ _ _ _ _ _ h1 h2 h
+    cases w with
+    | int j =>
+      simp only [render, Option.some.injEq] at h1 h2
+      subst h1; subst h2
+      obtain ⟨e, er⟩ := intBytes_unique i j r1 r2 t1'.noDigit t2'.noDigit h
+      exact ⟨by rw [e], er⟩
+    | null => simp [tagOf] at htag
+    | bool b => simp [tagOf] at htag
+    | float => simp [tagOf] at htag
+    | str t => simp [tagOf] at htag
+    | arr ys => simp [tagOf] at htag
+    | obj ns => simp [tagOf] at htag
+  | .float, _, _, _, _, _, _, _, h1, _, _, _, _ => by simp [render] at h1
+  | .str s, w, b1, b2, r1, r2, v1, v2, h1, h2, _, _, h => by
+    have htag := tag_eq_of_append _ _ _ _ _ _ h1 h2 h
+    cases w with
+    | str t =>
+      simp only [render, Option.some.injEq] at h1 h2
+      subst h1; subst h2
+      simp only [validJ, List.all_eq_true, decide_eq_true_eq] at v1 v2
+      obtain ⟨e, er⟩ := quote_unique s t r1 r2 v1 v2 h
+      exact ⟨by rw [e], er⟩
+    | null => simp [tagOf] at htag
+    | bool b => simp [tagOf] at htag
+    | int j => simp [tagOf] at htag
+    | float => simp [tagOf] at htag
+    | arr ys => simp [tagOf] at htag
+    | obj ns => simp [tagOf] at htag
+  | .arr xs, w, b1, b2, r1, r2, v1, v2, h1, h2, _, _, h => by
+    have htag := tag_eq_of_append _ _ _ _ _ _ h1 h2 h
+    cases w with
+    | arr ys =>
+      simp only [render, Option.map_eq_some_iff] at h1 h2
+      obtain ⟨c1, hc1, rfl⟩ := h1
+      obtain ⟨c2, hc2, rfl⟩ := h2
+      simp only [List.cons_append, List.append_assoc, List.cons.injEq, true_and, List.nil_append] at h
+      simp only [validJ] at v1 v2
+      obtain ⟨e, er⟩ := renderL_inj xs ys true c1 c2 r1 r2 v1 v2 hc1 hc2 h
+      exact ⟨by rw [e], er⟩
+    | null => simp [tagOf] at htag
+    | bool b => simp [tagOf] at htag
+    | int j => simp [tagOf] at htag
+    | float => simp [tagOf] at htag
+    | str t => simp [tagOf] at htag
+    | obj ns => simp [tagOf] at htag
+  | .obj ms, w, b1, b2, r1, r2, v1, v2, h1, h2, _, _, h => by
+    have htag := tag_eq_of_append _ _ _ _ _ _ h1 h2 h
+    cases w with
+    | obj ns =>
+      simp only [render, Option.map_eq_some_iff] at h1 h2
+      obtain ⟨c1, hc1, rfl⟩ := h1
+      obtain ⟨c2, hc2, rfl⟩ := h2
+      simp only [List.cons_append, List.append_assoc, List.cons.injEq, true_and, List.nil_append] at h
+      simp only [validJ] at v1 v2
+      obtain ⟨e, er⟩ := renderM_inj ms ns true c1 c2 r1 r2 v1 v2 hc1 hc2 h
+      exact ⟨by rw [e], er⟩
+    | null => simp [tagOf] at htag
+    | bool b => simp [tagOf] at htag
+    | int j => simp [tagOf] at htag
+    | float => simp [tagOf] at htag
+    | str t => simp [tagOf] at htag
+    | arr ys => simp [tagOf] at htag
+theorem renderL_inj : (xs ys : JList) → (f : Bool) → (b1 b2 r1 r2 : Bytes) → validL xs = true → validL ys = true →
+    renderL f xs = some b1 → renderL f ys = some b2 → b1 ++ 0x5D :: r1 = b2 ++ 0x5D :: r2 → xs = ys ∧ r1 = r2
+  | .nil, .nil, _, b1, b2, r1, r2, _, _, h1, h2, h => by
+    simp only [renderL, Option.some.injEq] at h1 h2
+    subst h1; subst h2
+    simp only [List.nil_append, List.cons.injEq, true_and] at h
+    exact ⟨rfl, h⟩
+  | .nil, .cons y ys, f, b1, b2, r1, r2, _, _, h1, h2, h => by
+    exfalso
+    simp only [renderL, Option.some.injEq] at h1
+    subst h1
+    simp only [renderL] at h2
+    split at h2
+    · rename_i by' bs hy _
+      simp only [Option.some.injEq] at h2
+      subst h2
+      obtain ⟨x, t, e, g⟩ := render_head _ _ hy
+      have := tagOf_lt _ _ hy
+      cases f
+      · simp at h
+      · simp only [↓reduceIte, List.nil_append, e, List.cons_append, List.cons.injEq] at h
+        rw [← h.1, headTag_rbracket] at g
+        omega
+    · cases h2
+  | .cons x xs, .nil, f, b1, b2, r1, r2, _, _, h1, h2, h => by
+    exfalso
+    simp only [renderL, Option.some.injEq] at h2
+    subst h2
+    simp only [renderL] at h1
+    split at h1
+    · rename_i bx bs hx _
+      simp only [Option.some.injEq] at h1
+      subst h1
+      obtain ⟨x', t, e, g⟩ := render_head _ _ hx
+      have := tagOf_lt _ _ hx
+      cases f
+      · simp at h
+      · simp only [↓reduceIte, List.nil_append, e, List.cons_append, List.cons.injEq] at h
+        rw [h.1, headTag_rbracket] at g
+        omega
+    · cases h1
+  | .cons x xs, .cons y ys, f, b1, b2, r1, r2, v1, v2, h1, h2, h => by
+    simp only [renderL] at h1 h2
+    split at h1
+    · rename_i bx bxs hx hxs
+      split at h2
+      · rename_i by' bys hy hys
+        simp only [Option.some.injEq] at h1 h2
+        subst h1; subst h2
+        simp only [validL, Bool.and_eq_true] at v1 v2
+        have h' : bx ++ (bxs ++ 0x5D :: r1) = by' ++ (bys ++ 0x5D :: r2) := by
+          cases f <;> simpa [List.append_assoc] using h
+        obtain ⟨e1, e2⟩ := render_inj x y bx by' _ _ v1.1 v2.1 hx hy (renderL_false_term xs bxs r1 hxs) (renderL_false_term ys bys r2 hys) h'
+        obtain ⟨e3, e4⟩ := renderL_inj xs ys false bxs bys r1 r2 v1.2 v2.2 hxs hys e2
+        exact ⟨by rw [e1, e3], e4⟩
+      · cases h2
+    · cases h1
+theorem renderM_inj : (ms ns : JMembers) → (f : Bool) → (b1 b2 r1 r2 : Bytes) → validM ms = true → validM ns = true →
+    renderM f ms = some b1 → renderM f ns = some b2 → b1 ++ 0x7D :: r1 = b2 ++ 0x7D :: r2 → ms = ns ∧ r1 = r2
+  | .nil, .nil, _, b1, b2, r1, r2, _, _, h1, h2, h => by
+    simp only [renderM, Option.some.injEq] at h1 h2
+    subst h1; subst h2
+    simp only [List.nil_append, List.cons.injEq, true_and] at h
+    exact ⟨rfl, h⟩
+  | .nil, .cons k y ys, f, b1, b2, r1, r2, _, _, h1, h2, h => by
+    exfalso
+    simp only [renderM, Option.some.injEq] at h1
+    subst h1
+    simp only [renderM] at h2
+    split at h2
+    · simp only [Option.some.injEq] at h2
+      subst h2
+      cases f <;> simp [quote] at h
+    · cases h2
+  | .cons k x xs, .nil, f, b1, b2, r1, r2, _, _, h1, h2, h => by
+    exfalso
+    simp only [renderM, Option.some.injEq] at h2
+    subst h2
+    simp only [renderM] at h1
+    split at h1
+    · simp only [Option.some.injEq] at h1
+      subst h1
+      cases f <;> simp [quote] at h
+    · cases h1
+  | .cons k x xs, .cons l y ys, f, b1, b2, r1, r2, v1, v2, h1, h2, h => by
+    simp only [renderM] at h1 h2
+    split at h1
+    · rename_i bx bxs hx hxs
+      split at h2
+      · rename_i by' bys hy hys
+        simp only [Option.some.injEq] at h1 h2
+        subst h1; subst h2
+        simp only [validM, Bool.and_eq_true, List.all_eq_true, decide_eq_true_eq] at v1 v2
+        have h' : quote k ++ (0x3A :: (bx ++ (bxs ++ 0x7D :: r1))) = quote l ++ (0x3A :: (by' ++ (bys ++ 0x7D :: r2))) := by
+          cases f <;> simpa [List.append_assoc] using h
+        obtain ⟨ek, e0⟩ := quote_unique k l _ _ v1.1.1 v2.1.1 h'
+        simp only [List.cons.injEq, true_and] at e0
+        obtain ⟨e1, e2⟩ := render_inj x y bx by' _ _ v1.1.2 v2.1.2 hx hy (renderM_false_term xs bxs r1 hxs) (renderM_false_term ys bys r2 hys) e0
+        obtain ⟨e3, e4⟩ := renderM_inj xs ys false bxs bys r1 r2 v1.2 v2.2 hxs hys e2
+        exact ⟨by rw [ek, e1, e3], e4⟩
+      · cases h2
+    · cases h1
+end
+
+/-! ### The normal form `canon` computes, as a value -/
+
+/-- `memInsert` on members that still carry their values -/
+def insertJ (k : Str) (v : JVal) : JMembers → JMembers
+  | .nil => .cons k v .nil
+  | .cons k' v' rest =>
+    if strLt k k' then .cons k v (.cons k' v' rest)
+    else if strLt k' k then .cons k' v' (insertJ k v rest)
+    else .cons k v rest
+
+def sortJAux : JMembers → JMembers → JMembers
+  | .nil, acc => acc
+  | .cons k v rest, acc => sortJAux rest (insertJ k v acc)
+
+/-- members ordered by key, a later member replacing an earlier one with the same key -/
+def sortJ (ms : JMembers) : JMembers := sortJAux ms .nil
+
+mutual
+/-- the value with every string normalised and the members of every object in canonical order -/
+def nrm (nfc : Str → Str) : JVal → JVal
+  | .null => .null
+  | .bool b => .bool b
+  | .int i => .int i
+  | .float => .float
+  | .str s => .str (normStr nfc s)
+  | .arr xs => .arr (nrmL nfc xs)
+  | .obj ms => .obj (sortJ (nrmM nfc ms))
+def nrmL (nfc : Str → Str) : JList → JList
+  | .nil => .nil
+  | .cons v rest => .cons (nrm nfc v) (nrmL nfc rest)
+def nrmM (nfc : Str → Str) : JMembers → JMembers
+  | .nil => .nil
+  | .cons k v rest => .cons (normStr nfc k) (nrm nfc v) (nrmM nfc rest)
+end
+
+/-- members as (key, rendered value) -/
+def toMem : JMembers → Option (List Member)
+  | .nil => some []
+  | .cons k v rest =>
+    match render v, toMem rest with
+    | some b, some es => some ((k, b) :: es)
+    | _, _ => none
+
+theorem renderM_eq : (f : Bool) → (js : JMembers) → (es : List Member) → toMem js = some es →
+    renderM f js = some (renderCanon f es)
+  | f, .nil, es, h => by simp only [toMem, Option.some.injEq] at h; subst h; rfl
+  | f, .cons k v rest, es, h => by
+    simp only [toMem] at h
+    split at h
+    · rename_i b es' hb hes
+      simp only [Option.some.injEq] at h
+      subst h
+      simp only [renderM, hb, renderM_eq false rest es' hes, renderCanon]
+    · cases h
+
+theorem toMem_insertJ (k : Str) (v : JVal) (b : Bytes) (hv : render v = some b) :
+    (js : JMembers) → (es : List Member) → toMem js = some es → toMem (insertJ k v js) = some (memInsert k b es)
+  | .nil, es, h => by simp only [toMem, Option.some.injEq] at h; subst h; simp [insertJ, toMem, hv, memInsert]
+  | .cons k' v' rest, es, h => by
+    simp only [toMem] at h
+    split at h
+    · rename_i b' es' hb' hes'
+      simp only [Option.some.injEq] at h
+      subst h
+      simp only [insertJ, memInsert]
+      split
+      · simp [toMem, hv, hb', hes']
+      · split
+        · simp [toMem, hb', toMem_insertJ k v b hv rest es' hes']
+        · simp [toMem, hv, hes']
+    · cases h
+
+theorem toMem_sortJAux : (ms acc : JMembers) → (es ea : List Member) → toMem ms = some es → toMem acc = some ea →
+    toMem (sortJAux ms acc) = some (es.foldl (fun a m => memInsert m.1 m.2 a) ea)
+  | .nil, acc, es, ea, hm, ha => by simp only [toMem, Option.some.injEq] at hm; subst hm; simpa [sortJAux] using ha
+  | .cons k v rest, acc, es, ea, hm, ha => by
+    simp only [toMem] at hm
+    split at hm
+    · rename_i b es' hb hes'
+      simp only [Option.some.injEq] at hm
+      subst hm
+      simp only [sortJAux, List.foldl_cons]
+      exact toMem_sortJAux rest _ es' _ hes' (toMem_insertJ k v b hb acc ea ha)
+    · cases hm
+
+theorem toMem_sortJ (ms : JMembers) (es : List Member) (hm : toMem ms = some es) :
+    toMem (sortJ ms) = some (sortMembers es) := by
+  simpa [sortJ, sortMembers] using toMem_sortJAux ms .nil es [] hm rfl
+
+mutual
+/-- **the canonical form of a value is the direct rendering of its normal form** -/
+theorem canon_render (nfc : Str → Str) : (v : JVal) → (b : Bytes) → canon nfc v = some b → render (nrm nfc v) = some b
+  | .null, b, h => by simpa [canon, nrm, render] using h
+  | .bool true, b, h => by simpa [canon, nrm, render] using h
+  | .bool false, b, h => by simpa [canon, nrm, render] using h
+  | .int i, b, h => by simpa [canon, nrm, render] using h
+  | .float, b, h => by simp [canon] at h
+  | .str s, b, h => by simpa [canon, nrm, render] using h
+  | .arr xs, b, h => by
+    simp only [canon, Option.map_eq_some_iff] at h
+    obtain ⟨c, hc, rfl⟩ := h
+    simp only [nrm, render, canonList_render nfc xs true c hc, Option.map_some]
+  | .obj ms, b, h => by
+    simp only [canon, Option.map_eq_some_iff] at h
+    obtain ⟨es, hes, rfl⟩ := h
+    have h1 := canonMembers_toMem nfc ms es hes
+    have h2 := toMem_sortJ _ _ h1
+    simp only [nrm, render, renderM_eq true _ _ h2, Option.map_some]
+theorem canonList_render (nfc : Str → Str) : (xs : JList) → (f : Bool) → (b : Bytes) → canonList nfc f xs = some b →
+    renderL f (nrmL nfc xs) = some b
+  | .nil, f, b, h => by simpa [canonList, nrmL, renderL] using h
+  | .cons v rest, f, b, h => by
+    simp only [canonList] at h
+    split at h
+    · rename_i bv bs hv hs
+      simp only [Option.some.injEq] at h
+      subst h
+      simp only [nrmL, renderL, canon_render nfc v bv hv, canonList_render nfc rest false bs hs]
+    · cases h
+theorem canonMembers_toMem (nfc : Str → Str) : (ms : JMembers) → (es : List Member) → canonMembers nfc ms = some es →
+    toMem (nrmM nfc ms) = some es
+  | .nil, es, h => by simpa [canonMembers, nrmM, toMem] using h
+  | .cons k v rest, es, h => by
+    simp only [canonMembers] at h
+    split at h
+    · rename_i bv es' hv hes'
+      simp only [Option.some.injEq] at h
+      subst h
+      simp only [nrmM, toMem, canon_render nfc v bv hv, canonMembers_toMem nfc rest es' hes']
+    · cases h
+end
+
+/-! ### validity is kept by the normal form -/
+
+theorem validM_insertJ (k : Str) (v : JVal) (hk : k.all (· < 0x110000) = true) (hv : validJ v = true) :
+    (js : JMembers) → validM js = true → validM (insertJ k v js) = true
+  | .nil, _ => by simp [insertJ, validM, hk, hv]
+  | .cons k' v' rest, h => by
+    simp only [validM, Bool.and_eq_true] at h
+    simp only [insertJ]
+    split
+    · simp [validM, hk, hv, h.1.1, h.1.2, h.2]
+    · split
+      · simp [validM, h.1.1, h.1.2, validM_insertJ k v hk hv rest h.2]
+      · simp [validM, hk, hv, h.2]
+
+theorem validM_sortJAux : (ms acc : JMembers) → validM ms = true → validM acc = true → validM (sortJAux ms acc) = true
+  | .nil, acc, _, ha => by simpa [sortJAux] using ha
+  | .cons k v rest, acc, hm, ha => by
+    simp only [validM, Bool.and_eq_true] at hm
+    simp only [sortJAux]
+    exact validM_sortJAux rest _ hm.2 (validM_insertJ k v hm.1.1 hm.1.2 acc ha)
+
+mutual
+theorem validJ_nrm {nfc : Str → Str} (hn : NfcOk nfc) : (v : JVal) → validJ v = true → validJ (nrm nfc v) = true
+  | .null, _ => rfl
+  | .bool _, _ => rfl
+  | .int _, _ => rfl
+  | .float, _ => rfl
+  | .str s, h => by
+    simp only [validJ, List.all_eq_true, decide_eq_true_eq] at h
+    simp only [nrm, validJ, List.all_eq_true, decide_eq_true_eq]
+    exact normStr_valid hn s h
+  | .arr xs, h => by simp only [validJ] at h; simp only [nrm, validJ]; exact validL_nrm hn xs h
+  | .obj ms, h => by
+    simp only [validJ] at h
+    simp only [nrm, validJ, sortJ]
+    exact validM_sortJAux _ .nil (validM_nrm hn ms h) rfl
+theorem validL_nrm {nfc : Str → Str} (hn : NfcOk nfc) : (xs : JList) → validL xs = true → validL (nrmL nfc xs) = true
+  | .nil, _ => rfl
+  | .cons v rest, h => by
+    simp only [validL, Bool.and_eq_true] at h
+    simp only [nrmL, validL, Bool.and_eq_true]
+    exact ⟨validJ_nrm hn v h.1, validL_nrm hn rest h.2⟩
+theorem validM_nrm {nfc : Str → Str} (hn : NfcOk nfc) : (ms : JMembers) → validM ms = true → validM (nrmM nfc ms) = true
+  | .nil, _ => rfl
+  | .cons k v rest, h => by
+    simp only [validM, Bool.and_eq_true, List.all_eq_true, decide_eq_true_eq] at h
+    simp only [nrmM, validM, Bool.and_eq_true, List.all_eq_true, decide_eq_true_eq]
+    exact ⟨⟨normStr_valid hn k h.1.1, validJ_nrm hn v h.1.2⟩, validM_nrm hn rest h.2⟩
+end
+
+/-- **The canonical form determines the value** up to what `nrm` forgets: the normalisation of strings
+and keys, the order of members, and which of several members with one key was written last. -/
+theorem canon_injective {nfc : Str → Str} (hn : NfcOk nfc) (v w : JVal) (hv : validJ v = true) (hw : validJ w = true)
+    (b : Bytes) (h1 : canon nfc v = some b) (h2 : canon nfc w = some b) : nrm nfc v = nrm nfc w :=
+  (render_inj (nrm nfc v) (nrm nfc w) b b [] [] (validJ_nrm hn v hv) (validJ_nrm hn w hw)
+    (canon_render nfc v b h1) (canon_render nfc w b h2) term_nil term_nil rfl).1
+
+/-- and conversely: values with the same normal form have the same canonical form -/
+theorem canon_eq_of_nrm_eq (nfc : Str → Str) (v w : JVal) (b c : Bytes) (h1 : canon nfc v = some b) (h2 : canon nfc w = some c)
+    (h : nrm nfc v = nrm nfc w) : b = c := by
+  have e1 := canon_render nfc v b h1
+  have e2 := canon_render nfc w c h2
+  rw [h] at e1
+  rw [e1] at e2
+  exact Option.some.inj e2
+
 end Tough.CJson
